@@ -1040,7 +1040,7 @@ class Chord:
         res: str
 
         """
-        if str(self.extension) == '5' or str(self.extension) == '':
+        if str(self.extension) == '':
             return ''
         else:
             return f"['{self.extension}']"
